@@ -487,8 +487,8 @@ impl<Service: service::Service, Resource: ServiceResource> Receiver<Service, Res
                 let mut index_and_key = None;
                 for (n, connection_key) in to_be_removed_connections
                     .iter()
-                    .skip(indices_to_skip)
                     .enumerate()
+                    .skip(indices_to_skip)
                 {
                     let connection = match connection_storage.get(*connection_key) {
                         Some(connection) => connection,
